@@ -2,6 +2,7 @@ package qx
 
 import (
 	"strconv"
+	"strings"
 
 	"verif/harness/internal/core"
 )
@@ -33,6 +34,8 @@ type Gen struct {
 	R     *core.Rand
 	W     *World
 	Store string
+	// ScalarOnly restricts atoms to comparisons / null tests / bool symbols over direct scalar symbols (C19)
+	ScalarOnly bool
 }
 
 func (g *Gen) strLit(typ Type) Lit {
@@ -156,9 +159,21 @@ func opsFor(typ Type) []string {
 func (g *Gen) Atom(depth int) Expr {
 	r := g.R
 	x := r.Float()
+	if g.ScalarOnly {
+		x = x * 0.42
+		if r.P(0.1) {
+			if r.Bool() {
+				return BoolSym{Name: "b"}
+			}
+			return Const{V: r.Bool()}
+		}
+	}
 	switch {
 	case x < 0.42: // scalar comparison
 		c := core.Pick(r, scalarLhs[g.Store])
+		for g.ScalarOnly && (strings.Contains(c.path, ".")) {
+			c = core.Pick(r, scalarLhs[g.Store])
+		}
 		typ := c.typ
 		if typ == TAny {
 			typ = core.Pick(r, []Type{TStr, TInt, TFloat, TBool, TTime})
